@@ -335,8 +335,16 @@ func w6Run(t *testing.T, r *verifsim.Run) {
 		if len(w.commitLog) > 0 && c.Intn(2, "resume_from_commit") == 1 {
 			cm := w.commitLog[c.Intn(len(w.commitLog), "resume_idx")]
 			startOff, startMeta = cm.off, cm.meta
-			if c.Intn(3, "resume_no_meta") == 1 {
+			switch c.Intn(4, "resume_meta_kind") {
+			case 1:
 				startMeta = nil
+			case 2:
+				// a snapshot may carry the meta of an EARLIER commit than the offset it resumes from
+				older := w.commitLog[c.Intn(len(w.commitLog), "resume_older_meta")]
+				if older.off <= cm.off {
+					startMeta = older.meta
+					r.Probe("resume_with_older_meta")
+				}
 			}
 		}
 	}
@@ -862,7 +870,11 @@ func (w *w6World) afterCrash(snap []gofs.SimFile, how string) bool {
 	// resume-from-commit check on the image (b)
 	if len(w.commitLog) > 0 && c.Intn(2, "img_resume") == 1 {
 		cm := w.commitLog[c.Intn(len(w.commitLog), "img_resume_idx")]
-		e2, _ := w.verifyReplay(img, "crash-resume", cm.off, cm.meta, len(eng.applied), false, damaged)
+		meta := cm.meta
+		if older := w.commitLog[c.Intn(len(w.commitLog), "img_resume_older_meta")]; older.off <= cm.off {
+			meta = older.meta
+		}
+		e2, _ := w.verifyReplay(img, "crash-resume", cm.off, meta, len(eng.applied), false, damaged)
 		if r.Failed() {
 			return false
 		}
